@@ -210,3 +210,144 @@ def rule_bp_normalizers(ctx):
             r.ok(f"{c.name}.normalize_tensors", sample={"class": c.name, "accrues": "log10|v| and phase of the local contraction value v", "divides": "tensor by a value computed from v"})
     r.floor(n, 2, "normalize_tensors implementations")
     return r
+
+
+# ---------------------------------------------------------------------------
+# orientation of the two messages of a bond when they are turned into reduced factors
+# ---------------------------------------------------------------------------
+
+def _own_walk(node):
+    todo = [node]
+    while todo:
+        n = todo.pop()
+        yield n
+        for c in ast.iter_child_nodes(n):
+            if not isinstance(c, (ast.FunctionDef, ast.AsyncFunctionDef, ast.Lambda)):
+                todo.append(c)
+
+
+def _transpose_parity(f, e, line, depth=0):
+    """number (mod 2) of transpositions between the stored message and expression e, following locals, single-argument
+    wrappers (conditioner(x), reshape(x, ...)) and local helper functions; None if the chain cannot be followed."""
+    if depth > 8:
+        return None
+    if isinstance(e, ast.Attribute) and e.attr in ("T", "H"):
+        p = _transpose_parity(f, e.value, line, depth + 1)
+        return None if p is None else (p + 1) % 2
+    if isinstance(e, ast.Call):
+        fn = getattr(e.func, "attr", None) or getattr(e.func, "id", None)
+        if fn in ("transpose", "dag") and e.args:
+            p = _transpose_parity(f, e.args[0], line, depth + 1)
+            return None if p is None else (p + 1) % 2
+        if fn in ("transpose",) and isinstance(e.func, ast.Attribute) and not e.args:
+            p = _transpose_parity(f, e.func.value, line, depth + 1)
+            return None if p is None else (p + 1) % 2
+        # local helper defined inside the function: follow its returns (all must agree)
+        if isinstance(e.func, ast.Name):
+            for d in ast.walk(f.node):
+                if isinstance(d, ast.FunctionDef) and d.name == e.func.id and d is not f.node:
+                    return ("helper", d)
+        if e.args:  # wrapper: conditioner(m), ar.reshape(m, shape), do("reshape", m, ...)
+            a0 = e.args[0]
+            if isinstance(a0, ast.Constant) and len(e.args) > 1:
+                a0 = e.args[1]
+            return _transpose_parity(f, a0, line, depth + 1)
+        return None
+    if isinstance(e, ast.IfExp):
+        a = _transpose_parity(f, e.body, line, depth + 1)
+        b = _transpose_parity(f, e.orelse, line, depth + 1)
+        return a if a == b else None
+    if isinstance(e, ast.Subscript):
+        if "messages" in src_of(e.value):
+            return 0
+        return _transpose_parity(f, e.value, line, depth + 1)
+    if isinstance(e, ast.Attribute) and e.attr == "data":
+        return _transpose_parity(f, e.value, line, depth + 1)
+    if isinstance(e, ast.Name):
+        best = None
+        for a in _own_walk(f.node):
+            if isinstance(a, ast.Assign) and a.lineno < line:
+                for t in a.targets:
+                    if isinstance(t, ast.Name) and t.id == e.id:
+                        if best is None or a.lineno > best[0]:
+                            best = (a.lineno, a.value, None)
+                    elif isinstance(t, (ast.Tuple, ast.List)):
+                        for k, el in enumerate(t.elts):
+                            if isinstance(el, ast.Name) and el.id == e.id and (best is None or a.lineno > best[0]):
+                                best = (a.lineno, a.value, k)
+        if best is None:
+            return None
+        ln, v, k = best
+        if k is None:
+            return _transpose_parity(f, v, ln, depth + 1)
+        p = _transpose_parity(f, v, ln, depth + 1)
+        if isinstance(p, tuple) and p[0] == "helper":
+            helper = p[1]
+            outs = set()
+            for rt in ast.walk(helper):
+                if isinstance(rt, ast.Return) and isinstance(rt.value, ast.Tuple) and k < len(rt.value.elts):
+                    fake = type("F", (), {"node": helper})
+                    outs.add(_transpose_parity(fake, rt.value.elts[k], rt.lineno, depth + 1))
+                elif isinstance(rt, ast.Return):
+                    outs.add(None)
+            return outs.pop() if len(outs) == 1 else None
+        if isinstance(v, ast.Tuple) and k < len(v.elts):
+            return _transpose_parity(f, v.elts[k], ln, depth + 1)
+        return p if not isinstance(p, tuple) else None
+    return None
+
+
+def rule_factor_orientation(ctx):
+    r = RuleResult(
+        "factor-orientation",
+        "sibling agreement over every place a BP class turns the two messages of a bond into reduced factors "
+        "(squared_op_to_reduced_factor(..., right=True) for the left environment, right=False for the right one): following "
+        "the first argument back to the stored message, the right=False factor is built from the message transposed an odd "
+        "number of times relative to the right=True one, in every sibling (D2BP.compress, its raw-message re-projection, "
+        "L2BP.compress); a dropped .T uses the conjugate environment for complex data",
+    )
+    n = 0
+    table = {}
+    for modname in ("quimb.tensor.belief_propagation.d2bp", "quimb.tensor.belief_propagation.l2bp"):
+        mod = ctx.prog.modules.get(modname)
+        if mod is None:
+            raise AnalysisError(f"module {modname} not found")
+        for f in mod.all_functions:
+            if f.is_alias or isinstance(f.node, ast.Lambda):
+                continue
+            for c in _own_walk(f.node):
+                if isinstance(c, ast.Call) and (getattr(c.func, "attr", None) or getattr(c.func, "id", None)) == "squared_op_to_reduced_factor" and c.args:
+                    right = next((k.value.value for k in c.keywords if k.arg == "right" and isinstance(k.value, ast.Constant)), None)
+                    if right is None:
+                        continue
+                    p = _transpose_parity(f, c.args[0], c.lineno)
+                    if isinstance(p, tuple):
+                        p = None
+                    n += 1
+                    table.setdefault(f.qualname, []).append((c.lineno, right, p, src_of(c.args[0]), f))
+    for q, rows in table.items():
+        rows.sort()
+        f = rows[0][4]
+        # consecutive (right=True, right=False) pairs
+        for i in range(0, len(rows) - 1, 2):
+            (l1, r1, p1, s1, _), (l2, r2, p2, s2, _) = rows[i], rows[i + 1]
+            where = f"{f.module.relpath}:{l2}"
+            construct = q
+            if {r1, r2} != {True, False}:
+                r.skip(f"{construct}@{l1}", "reduced-factor calls are not a (right=True, right=False) pair")
+                continue
+            if p1 is None or p2 is None:
+                r.skip(f"{construct}@{l1}", f"message provenance of `{s1}` / `{s2}` not followed")
+                continue
+            pt, pf = (p1, p2) if r1 else (p2, p1)
+            if pt == 0 and pf == 1:
+                r.ok(f"{construct}[{s1},{s2}]", sample={"function": q, "right=True from": s1 if r1 else s2, "right=False from": (s2 if r1 else s1) + " (transposed)"})
+            else:
+                r.bad(Finding(
+                    "factor-orientation", construct,
+                    f"the right=False reduced factor is built from `{s2 if r1 else s1}`, which is transposed {pf} time(s) relative to the stored message "
+                    f"(the right=True one: {pt}); its siblings transpose the message from the other side exactly once — for complex data the factor "
+                    "now describes the conjugate environment",
+                    where=where, operand=f"{s2 if r1 else s1}"))
+    r.floor(n, 6, "reduced-factor constructions from BP messages")
+    return r
